@@ -270,12 +270,16 @@ impl Poly {
             // A=D^2 so it is faster to reduce D rather than A.
             if dinv == 0 {
                 // For very small integers, we may select D inside the factor base.
-                // In this case the roots are the roots of Bx-abs(C) (C < 0)
+                // In this case the roots are the roots of Bx+C
+                // (C is usually negative, but not for the smallest integers).
                 let b = div.mod_uint(&self.b);
                 let binv = inv.invert(b as u32, &div) as u64;
-                debug_assert!(self.c.is_negative());
                 let c = div.mod_uint(&self.c.abs().to_bits());
-                let r = shift(div.divmod64(c * binv).1 as u32);
+                let mut r = div.divmod64(c * binv).1 as u32;
+                if !self.c.is_negative() && r != 0 {
+                    r = p - r;
+                }
+                let r = shift(r);
                 (r, r)
             } else {
                 let d2inv = div.modu63(dinv as u64 * dinv as u64);
@@ -358,7 +362,12 @@ pub fn make_poly(n: &Uint, d: u128, r: &Uint) -> Poly {
     // Lift square root mod D^2
     // Since D*D < N, computations can be done using the same integer width.
     let h1 = r;
-    let c = ((n - h1 * h1) / d) % d;
+    let c = if *n >= h1 * h1 {
+        ((n - h1 * h1) / d) % d
+    } else {
+        // For very small integers, D*D may exceed N.
+        (d - ((h1 * h1 - n) / d) % d) % d
+    };
     let h2 = (c * inv_mod(&(h1 << 1), &d).unwrap()) % d;
     // (h1 + h2*D)**2 = n mod D^2
     let mut b = h1 + h2 * d;
